@@ -226,7 +226,7 @@ func runC02own(c *core.Ctx) {
 					return true
 				}
 				if r, ok := in.(*ssa.Return); ok && len(r.Results) == 3 {
-					if cst, ok := r.Results[1].(*ssa.Const); ok && cst.Value != nil && cst.Value.String() == "true" {
+					if cst, ok := asConst(r.Results[1]); ok && cst.Value != nil && cst.Value.String() == "true" {
 						return true // needBatchLiteResolve
 					}
 				}
